@@ -180,7 +180,7 @@ def unwrap(x):
     """Strip origin wrappers and value-preserving casts/moves/copies."""
     while isinstance(x, dict):
         k = x.get('k')
-        if k in ('local', 'paramof', 'icast', 'cast', 'move', 'defarg'):
+        if k in ('local', 'paramof', 'icast', 'cast', 'move', 'defarg', 'retof'):
             x = x.get('e')
         elif k == 'ctor' and x.get('copy') and len(x.get('args', [])) == 1:
             x = x['args'][0]
